@@ -7,6 +7,8 @@
    lib/OMap.v. *)
 From Coq Require Import ZArith List Bool.
 From ELA Require Import lib.OMap model.C19_Treap proof.C19_Treap proof.C19_Iter.
+(* the correspondence checker is rebuilt together with the theorems *)
+From ELA Require corr.C19_corr.
 Import ListNotations.
 Local Open Scope Z_scope.
 
